@@ -133,7 +133,7 @@ func ruleC11Enc(r *Run) {
 	rule := "C11-ENC"
 	r.Floor(rule, 2)
 	tm := newTierModel(w)
-	disp := w.Fn("rux", "Router.handleHTTPRequest")
+	disp := w.Dispatcher()
 	encF := w.Field("rux", "Router", "useEncodedPath")
 	for _, q := range callsToFn(disp, tm.quick) {
 		paths, complete := enumPaths(disp, q.(ssa.Instruction), 4096)
